@@ -214,6 +214,12 @@ def _havoc(interp, fr, node, spec, tag):
     for n in sorted(assigned_names(node.body) - assigned_names([node.target])):
         if n in fr.env:
             v = fr.env[n]
+            ov = getattr(ctx, 'havoc_override', None)
+            if ov is not None:
+                r = ov(n, v, n + tag)
+                if r is not None:
+                    fr.env[n] = r
+                    continue
             if n in grown and v.kind == 'list':
                 # a local list that the body grows: only a list of ints that is empty at loop entry is modelled (as a multiset of ints)
                 if v.esc or v.items:
